@@ -688,7 +688,11 @@ func (server *SugarDB) evictKeysWithExpiredTTL(ctx context.Context) error {
 	if (deletedCount/sampleSize)*100 >= thresholdPercentage {
 		log.Printf("deletion ratio (%d percent) reached threshold (%d percent), sampling again\n",
 			(deletedCount/sampleSize)*100, thresholdPercentage)
-		return server.evictKeysWithExpiredTTL(ctx)
+		// Sample again, but not while holding the store lock (the nested call takes it itself).
+		server.storeLock.Unlock()
+		err := server.evictKeysWithExpiredTTL(ctx)
+		server.storeLock.Lock()
+		return err
 	}
 
 	return nil
